@@ -93,6 +93,8 @@ def run(chk):
                # near misses of texts parsed just before (a history-keyed cache must not accept them), blanks in forbidden positions
                "> = 1.0", "==1! 3.*", "<1| |>=2.0.dev1", "<emp ty>", ">=1 .0", "= =1.0", "~ =1.4.2",
                # characters that are special to str.format / % / regex when a message is built from the rejected text
+               # non-ASCII decimal digits (str.isdigit / \\d accept them, PEP 440 does not), stray unicode
+               ">=\uff13.\uff18", "<\uff14", ">\u0663", "==\uff11.\uff10", "~=1.\u0664", ">=1.0\u00a0", ">=1.0,<\uff12",
                ">=1.{", ">=1.0,<2}", ">={version}", ">=1.0,{}", "~=1.0||<{", "{0}", "%s", ">=1.0%d", ">=1.0\\", ">=1.0,[", "(>=1.0", ">=1.0)"]
     for t in valid:
         chk.instance("R17.3")
